@@ -51,9 +51,36 @@ pub fn schema() -> Schema {
 
 /// one index holding `docs` (indexes into the alphabet) split into segments of the given sizes
 pub fn build(docs: &[usize], segments: &[usize]) -> Index {
+    build_over(&alphabet(), docs, segments)
+}
+
+/// a second, wider alphabet for the large-segment family: 64 documents, n = i - 20 (negative minimum: the
+/// first histogram bucket is not bucket 0), val = n / 2, dates one day apart, three groups, five keys
+pub fn wide_alphabet() -> Vec<ADoc> {
+    let day = 86_400i64;
+    let base = 1_600_000_000i64 / day * day;
+    (0..64i64)
+        .map(|i| ADoc {
+            val: if i % 9 == 4 { vec![] } else { vec![(i - 20) as f64 * 0.5] },
+            n: vec![i - 20],
+            g: (i % 3) as u64,
+            k: vec![["a", "b", "c", "d", "e"][(i % 5) as usize]],
+            txt: ["x", "y", "x y"][(i % 3) as usize],
+            date: if i % 11 == 7 { None } else { Some(base + (i - 20) * day + 3600) },
+        })
+        .collect()
+}
+
+/// document pattern of the large family: the first 320 documents cycle through the first 40 alphabet entries
+/// (enough distinct buckets early for a histogram collector to switch to dense storage), later documents use
+/// all 64 (buckets whose first document appears after the switch), every 97th is the extreme entry 63
+pub fn large_docs(n: usize) -> Vec<usize> {
+    (0..n).map(|i| if i < 320 { (i * 7) % 40 } else if i % 97 == 0 { 63 } else { (i * 11) % 64 }).collect()
+}
+
+pub fn build_over(alpha: &[ADoc], docs: &[usize], segments: &[usize]) -> Index {
     let schema = schema();
     let index = Index::create_in_ram(schema.clone());
-    let alpha = alphabet();
     let f = |n: &str| schema.get_field(n).unwrap();
     let mut w: IndexWriter = index.writer_with_num_threads(1, 15_000_000).unwrap();
     w.set_merge_policy(Box::new(tantivy::merge_policy::NoMergePolicy));
@@ -178,6 +205,8 @@ pub fn requests(thorough: bool) -> Vec<(String, Value)> {
     add("composite_1", json!({"c": {"composite": {"size": 2, "sources": [{"kk": {"terms": {"field": "k"}}}]}}}));
     add("composite_2", json!({"c": {"composite": {"size": 10, "sources": [{"gg": {"terms": {"field": "g"}}}, {"nn": {"histogram": {"field": "n", "interval": 5.0}}}]}}}));
     add("top_hits", json!({"th": {"top_hits": {"size": 2, "sort": [{"n": "desc"}], "docvalue_fields": ["n", "g"]}}}));
+    add("top_hits_from", json!({"th": {"top_hits": {"size": 2, "from": 3, "sort": [{"n": "desc"}], "docvalue_fields": ["n"]}}}));
+    add("terms_top_hits_from", json!({"t": {"terms": {"field": "g", "size": 10, "segment_size": 10, "order": {"_key": "asc"}}, "aggs": {"th": {"top_hits": {"size": 1, "from": 1, "sort": [{"n": "asc"}], "docvalue_fields": ["n"]}}}}}));
     if thorough {
         add("terms_k_terms_n", json!({"t": {"terms": {"field": "k", "size": 10, "segment_size": 10, "order": {"_key": "asc"}}, "aggs": {"u": {"terms": {"field": "n", "size": 10, "segment_size": 10, "order": {"_key": "desc"}}, "aggs": {"a": {"avg": {"field": "val"}}}}}}}));
         add("hist_range_count", json!({"h": {"histogram": {"field": "n", "interval": 5.0}, "aggs": {"r": {"range": {"field": "val", "ranges": [{"to": 1.0}, {"from": 1.0}]}}}}}));
@@ -651,6 +680,7 @@ fn query_matches(qi: usize, d: &ADoc) -> bool {
 
 /// the indexes of one corpus: single segment, every contiguous split (as one index and as separate indexes)
 pub struct Prepared {
+    alpha: Vec<ADoc>,
     docs: Vec<usize>,
     single: Index,
     splits: Vec<(Vec<usize>, Index, Vec<Index>)>,
@@ -672,12 +702,63 @@ pub fn prepare(docs: &[usize]) -> Prepared {
         }
         splits.push((segs, idx, parts));
     }
-    Prepared { docs: docs.to_vec(), single, splits, empty: build(&[], &[]) }
+    Prepared { alpha: alphabet(), docs: docs.to_vec(), single, splits, empty: build(&[], &[]) }
+}
+
+/// large family: `n` documents of the wide alphabet in one segment, and three two-way splits (halves, a 64-doc
+/// head, a 1-doc tail), each as one index and as separate indexes
+pub fn prepare_large(n: usize) -> Prepared {
+    let alpha = wide_alphabet();
+    let docs = large_docs(n);
+    let single = build_over(&alpha, &docs, &[n]);
+    let mut splits = vec![];
+    for segs in [vec![n / 2, n - n / 2], vec![64, n - 64], vec![n - 1, 1]] {
+        let idx = build_over(&alpha, &docs, &segs);
+        let mut parts = vec![];
+        let mut k = 0;
+        for &s in &segs {
+            parts.push(build_over(&alpha, &docs[k..k + s], &[s]));
+            k += s;
+        }
+        splits.push((segs, idx, parts));
+    }
+    Prepared { alpha, docs, single, splits, empty: build(&[], &[]) }
+}
+
+/// requests of the large family: bucket aggregations with and without nested metrics / buckets
+pub fn large_requests() -> Vec<(String, Value)> {
+    let mut v: Vec<(String, Value)> = vec![];
+    let mut add = |name: &str, req: Value| v.push((name.to_string(), req));
+    let subs = json!({"s": {"sum": {"field": "val"}}, "mx": {"max": {"field": "n"}}, "c": {"value_count": {"field": "val"}}});
+    for (field, interval) in [("n", 1.0), ("n", 5.0), ("val", 0.5), ("val", 2.5)] {
+        for mdc in [0, 1] {
+            add(&format!("L_hist_{field}_{interval}_{mdc}"), json!({"h": {"histogram": {"field": field, "interval": interval, "min_doc_count": mdc}}}));
+        }
+        add(&format!("L_hist_{field}_{interval}_sub"), json!({"h": {"histogram": {"field": field, "interval": interval, "min_doc_count": 1}, "aggs": subs}}));
+    }
+    add("L_hist_n_offset", json!({"h": {"histogram": {"field": "n", "interval": 4.0, "offset": 1.0}, "aggs": {"a": {"avg": {"field": "val"}}}}}));
+    add("L_datehist", json!({"d": {"date_histogram": {"field": "date", "fixed_interval": "1d"}}}));
+    add("L_datehist_sub", json!({"d": {"date_histogram": {"field": "date", "fixed_interval": "1d", "min_doc_count": 1}, "aggs": subs}}));
+    for field in ["k", "g", "n"] {
+        add(&format!("L_terms_{field}"), json!({"t": {"terms": {"field": field, "size": 100, "segment_size": 100, "order": {"_key": "asc"}}}}));
+        add(&format!("L_terms_{field}_sub"), json!({"t": {"terms": {"field": field, "size": 100, "segment_size": 100, "order": {"_key": "asc"}}, "aggs": subs}}));
+    }
+    add("L_range_sub", json!({"r": {"range": {"field": "n", "ranges": [{"to": -5.0}, {"from": -5.0, "to": 10.0}, {"from": 10.0}]}, "aggs": subs}}));
+    add("L_terms_g_hist_n", json!({"t": {"terms": {"field": "g", "size": 10, "segment_size": 10, "order": {"_key": "asc"}}, "aggs": {"h": {"histogram": {"field": "n", "interval": 2.0, "min_doc_count": 1}, "aggs": {"s": {"sum": {"field": "val"}}}}}}}));
+    add("L_hist_terms_k", json!({"h": {"histogram": {"field": "n", "interval": 8.0, "min_doc_count": 1}, "aggs": {"t": {"terms": {"field": "k", "size": 10, "segment_size": 10, "order": {"_key": "asc"}}, "aggs": {"s": {"sum": {"field": "val"}}}}}}}));
+    add("L_filter_hist", json!({"f": {"filter": "txt:x", "aggs": {"h": {"histogram": {"field": "n", "interval": 3.0}, "aggs": {"s": {"sum": {"field": "val"}}}}}}}));
+    // top_hits below buckets (per-bucket collectors that are flushed in batches); ties hold identical documents
+    add("L_hist_top_hits", json!({"h": {"histogram": {"field": "n", "interval": 1.0, "min_doc_count": 1}, "aggs": {"th": {"top_hits": {"size": 1, "sort": [{"n": "desc"}], "docvalue_fields": ["n", "g"]}}}}}));
+    add("L_terms_top_hits", json!({"t": {"terms": {"field": "k", "size": 10, "segment_size": 10, "order": {"_key": "asc"}}, "aggs": {"th": {"top_hits": {"size": 2, "from": 1, "sort": [{"n": "desc"}], "docvalue_fields": ["n"]}}}}}));
+    for m in ["sum", "stats", "avg"] {
+        add(&format!("L_{m}"), json!({"m": {m: {"field": "val"}}}));
+    }
+    v
 }
 
 /// all checks of one (corpus, request, query)
 pub fn check(p: &Prepared, name: &str, req: &Value, qi: usize, st: &mut Stats) -> Option<(String, String)> {
-    let alpha = alphabet();
+    let alpha = &p.alpha;
     let q = query_of(qi);
     let docs = &p.docs;
     let reference = match run_agg(&p.single, req, q.as_ref()) {
@@ -811,7 +892,8 @@ pub fn replay(case: &Value) -> Vec<Violation> {
     let req = case["request"].clone();
     let qi = case["query"].as_u64().unwrap_or(0) as usize;
     let mut st = Stats::default();
-    match catch_unwind(AssertUnwindSafe(|| check(&prepare(&docs), case["name"].as_str().unwrap_or(""), &req, qi, &mut st))) {
+    let prep = || if let Some(n) = case["large"].as_u64() { prepare_large(n as usize) } else { prepare(&docs) };
+    match catch_unwind(AssertUnwindSafe(|| check(&prep(), case["name"].as_str().unwrap_or(""), &req, qi, &mut st))) {
         Ok(None) => vec![],
         Ok(Some((r, w))) => vec![Violation::new(&r, w, case.clone())],
         Err(e) => vec![Violation::new("aggregation_panic", panic_message(e), case.clone())],
@@ -859,10 +941,42 @@ pub fn run(ctx: &Ctx) -> Report {
             st.sample(json!({"docs":docs,"requests":reqs.len(),"example_request":reqs[(i * 7) % reqs.len()].1,"queries":"all, term txt:x, range n>=0"}));
         }
     });
-    rep.set("exhaustive", done == work.len());
+    // large-segment family (collectors that buffer, flush every 2048 documents and switch storage layouts)
+    let lreqs = large_requests();
+    let lsizes: Vec<usize> = if thorough { vec![130, 2049, 2500, 4200, 9000] } else { vec![130, 2500, 4200] };
+    let lwork: Vec<(usize, usize)> = lsizes.iter().flat_map(|&n| (0..4).map(move |chunk| (n, chunk))).collect();
+    let (stl, donel) = par_for(ctx, lwork.len(), |i, st| {
+        let (n, chunk) = lwork[i];
+        let p = prepare_large(n);
+        for (ri, (name, req)) in lreqs.iter().enumerate() {
+            if ri % 4 != chunk {
+                continue;
+            }
+            for qi in 0..3usize {
+                if qi > 0 && ri % 3 != 0 {
+                    continue;
+                }
+                st.eval();
+                st.count("large_cases");
+                st.nontrivial(&("L", n, ri, qi));
+                let r = catch_unwind(AssertUnwindSafe(|| check(&p, name, req, qi, st)));
+                let (rule, what) = match r {
+                    Ok(None) => continue,
+                    Ok(Some(x)) => x,
+                    Err(e) => ("aggregation_panic".to_string(), format!("{} [{}]", panic_message(e), last_panic())),
+                };
+                let what: String = what.chars().take(700).collect();
+                st.violation(Violation::new(&rule, format!("large family: {n} documents, request {name} = {req} query {qi}: {what}"), json!({"large":n,"name":name,"request":req,"query":qi})));
+            }
+        }
+    });
+    let mut st = st;
+    st.merge(stl);
+    rep.set("large_family", json!({"sizes": lsizes, "requests": lreqs.len(), "work_items": lwork.len(), "completed": donel}));
+    rep.set("exhaustive", done == work.len() && donel == lwork.len());
     rep.set("corpora", corpora.len() as u64);
     rep.set("requests", reqs.len() as u64);
-    rep.set("rule", "every multiset of 1..3 (thorough 4, thinned) documents over an 8-document alphabet (negative / fractional / boundary values, missing fields, a multi-valued document with a duplicate value) x ~200 aggregation requests (6 metrics with / without missing, extended stats, cardinality, percentiles, terms with order / size / min_doc_count / missing, ranges, histograms with interval / offset / min_doc_count / hard and extended bounds, date histograms, filter, composite, top_hits, depth-2 nestings) x 3 filtering queries: (a) direct evaluation of the request over the model documents (metrics, terms, range, histogram and their nestings), (b) every contiguous split into <= 3 segments, (c) the same split as separate indexes whose intermediate results are merged in every order and two groupings, with and without a postcard round trip; all must equal the single-segment result. Non-trivial: >= 2 documents; distinct by (corpus, request, query)");
+    rep.set("rule", "every multiset of 1..3 (thorough 4, thinned) documents over an 8-document alphabet (negative / fractional / boundary values, missing fields, a multi-valued document with a duplicate value) x ~200 aggregation requests (6 metrics with / without missing, extended stats, cardinality, percentiles, terms with order / size / min_doc_count / missing, ranges, histograms with interval / offset / min_doc_count / hard and extended bounds, date histograms, filter, composite, top_hits, depth-2 nestings) x 3 filtering queries: (a) direct evaluation of the request over the model documents (metrics, terms, range, histogram and their nestings), (b) every contiguous split into <= 3 segments, (c) the same split as separate indexes whose intermediate results are merged in every order and two groupings, with and without a postcard round trip; all must equal the single-segment result. Large-segment family: 130 / 2500 / 4200 (thorough also 2049, 9000) documents over a 64-entry alphabet (negative minimum, later-appearing buckets, missing values) x 31 bucket requests with nested metrics and buckets (histograms, date histograms, terms, ranges, filter) x up to 3 queries, with the same three oracles over splits {halves, 64-doc head, 1-doc tail}. Non-trivial: >= 2 documents; distinct by (corpus, request, query)");
     for k in ["direct_comparisons", "segmentations", "distributed_merges"] {
         if st.counters.get(k).copied().unwrap_or(0) == 0 {
             rep.machinery_errors.push(format!("vacuous: {k} = 0"));
